@@ -141,6 +141,83 @@ def _unsolved_step(ctx, it, f, cls, p):
     )
 
 
+def _paired_exact_reuse(ctx, it, f, stale, p, parts):
+    """Memo pair kept across iterations: every assignment `M = F(X)` of the carried system M inside the time loop stands
+    next to `K = X.copy()` (or `K = X`, `np.copy(X)`, `... if ... else None`) for one carried key K, and the partition
+    that reuses M is selected by an exact equality between this step's X and K (`X.tobytes() == K.tobytes()`,
+    np.array_equal(X, K)).  Then M == F(K) == F(X): the reused system is this step's."""
+    import ast as _ast
+
+    from .. import loops
+
+    names = {s_.split("@")[0] for s_ in stale}
+    loops_ = [n for n in _ast.walk(f.node) if isinstance(n, _ast.For)]
+    pairs = {}  # M -> (F name, K)
+    for lp in loops_:
+        carried = loops.carried(lp)
+        blocks = [lp.body] + [b for n in _ast.walk(lp) for b in (getattr(n, "body", None), getattr(n, "orelse", None)) if isinstance(b, list) and n is not lp]
+        for blk in blocks:
+            for st in blk:
+                if not (isinstance(st, _ast.Assign) and len(st.targets) == 1 and isinstance(st.targets[0], _ast.Name) and st.targets[0].id in names):
+                    continue
+                M = st.targets[0].id
+                v = st.value
+                if not (isinstance(v, _ast.Call) and len(v.args) == 1 and not v.keywords and isinstance(v.args[0], _ast.Name)):
+                    return False
+                X = v.args[0].id
+                key = None
+                for st2 in blk:
+                    if isinstance(st2, _ast.Assign) and len(st2.targets) == 1 and isinstance(st2.targets[0], _ast.Name) and st2.targets[0].id in carried and st2 is not st:
+                        e = st2.value
+                        if isinstance(e, _ast.IfExp) and isinstance(e.orelse, _ast.Constant) and e.orelse.value is None:
+                            e = e.body
+                        txt = _ast.unparse(e)
+                        if txt in (X, f"{X}.copy()", f"np.copy({X})", f"np.array({X})", f"numpy.copy({X})", f"numpy.array({X})"):
+                            key = st2.targets[0].id
+                if key is None:
+                    return False
+                fname = _ast.unparse(v.func).split(".")[-1]
+                if M in pairs and pairs[M] != (fname, key):
+                    return False
+                pairs[M] = (fname, key)
+    if set(pairs) != names:
+        return False
+    for M, (fname, K) in pairs.items():
+        # this step's X: the argument F receives on the partitions that do assemble the system
+        xkeys = set()
+        for q, _sol in parts:
+            for e in q.events:
+                if e.kind == "int_call" and e.data["callee"].split(".")[-1] == fname:
+                    args = list(e.data["args"].values())
+                    if args:
+                        xkeys.add(nf.key(it.to_nf(args[0])))
+        ok = False
+        for k, c, _d in p.decisions:
+            if k[0] != "eq" or not c:
+                continue
+            d = nf.unkey(k[1])
+            if len(d) != 2 or sorted(d.values()) != [-1, 1]:
+                continue
+            atoms_ = []
+            for m in d:
+                if len(m) != 1 or m[0][1] != nf.KONE:
+                    atoms_ = []
+                    break
+                atoms_.append(m[0][0])
+            if len(atoms_) != 2:
+                continue
+            kept = [a for a in atoms_ if a[0] == "fn" and a[1].startswith(f"{K}@carried.")]
+            cur = [a for a in atoms_ if a not in kept]
+            if len(kept) == 1 and len(cur) == 1 and cur[0][0] == "fn" and len(cur[0][2]) == 1:
+                meth_k = kept[0][1].split(".")[-1].replace("{recv}", "")
+                meth_c = cur[0][1].split(".")[-1].replace("{recv}", "")
+                if meth_k == meth_c == "tobytes" and cur[0][2][0] in xkeys:
+                    ok = True
+        if not ok:
+            return False
+    return True
+
+
 def _uniform_and_linear(ctx, cls, p):
     """the partition is selected by an exact test `all(diff(time) == one value)` and cls.alpha_scaled is level-independent"""
     import re
@@ -168,6 +245,7 @@ def _uniform_and_linear(ctx, cls, p):
 
 def _step(ctx, cls):
     it, f, parts = sim_step(ctx, cls)
+    parts = list(parts)
     out = []
     for p, sol in parts:
         if len(sol) == 0 and any(e.kind == "for_iter" and not e.data.get("comprehension") for e in p.events):
@@ -184,6 +262,12 @@ def _step(ctx, cls):
             seen = ctx.__dict__.setdefault("_unsolved_seen", set())
             if key not in seen:
                 seen.add(key)
+                if _paired_exact_reuse(ctx, it, f, stale, p, parts):
+                    ctx.ok(
+                        f"{ctx.prop}-s", RES + f"{cls}.simulate:system carried over [{tag[:120]}]", f"{f.file}:{sol[0].line}",
+                        "the kept system is stored together with (a copy of) the coefficients it was assembled from and is reused only when this step's coefficients are exactly equal to them: it is then this step's system",
+                    )
+                    continue
                 if _uniform_and_linear(ctx, cls, p):
                     ctx.ok(
                         f"{ctx.prop}-s", RES + f"{cls}.simulate:system carried over [{tag}]", f"{f.file}:{sol[0].line}",
